@@ -4,7 +4,7 @@
 (* documented part: the field of the version state it shows, the language  *)
 (* its recogniser accepts (a BVRegex AST written from the README's range    *)
 (* column, longest numeral first), its formatter, and its zero value.       *)
-(* Undocumented parts (GITHASH, HEXHASH, TAG value "preview") are outside.  *)
+(* Undocumented parts (GITHASH, HEXHASH) are outside.                       *)
 (***************************************************************************)
 EXTENDS BVRegex, BVText
 
@@ -17,11 +17,12 @@ PartNames == {"YYYY","YY","0Y","GGGG","GG","0G","Q","MM","0M","DD","0D","JJJ","0
               "TAG","PYTAG","NUM","INC0","INC1"}
 CalendarParts == {"YYYY","YY","0Y","GGGG","GG","0G","Q","MM","0M","DD","0D","JJJ","00J","WW","0W","UU","0U","VV","0V"}
 
-TagNames   == {"final","dev","alpha","beta","rc","post"}
+\* "preview" is accepted by the recogniser as a spelling of a release candidate (not offered by --tag, not in the README's table): a version that carries it keeps it
+TagNames   == {"final","dev","alpha","beta","rc","post","preview"}
 TagWords   == [final |-> <<102,105,110,97,108>>, dev |-> <<100,101,118>>, alpha |-> <<97,108,112,104,97>>,
-               beta |-> <<98,101,116,97>>, post |-> <<112,111,115,116>>, rc |-> <<114,99>>]
+               beta |-> <<98,101,116,97>>, post |-> <<112,111,115,116>>, rc |-> <<114,99>>, preview |-> <<112,114,101,118,105,101,119>>]
 PyTagWords == [dev |-> <<100,101,118>>, post |-> <<112,111,115,116>>, rc |-> <<114,99>>, a |-> <<97>>, b |-> <<98>>]
-PyTagOfTag == [final |-> "", dev |-> "dev", alpha |-> "a", beta |-> "b", post |-> "post", rc |-> "rc"]
+PyTagOfTag == [final |-> "", dev |-> "dev", alpha |-> "a", beta |-> "b", post |-> "post", rc |-> "rc", preview |-> "rc"]
 TagOfPyTag(p) == CASE p = "a" -> "alpha" [] p = "b" -> "beta" [] p = "" -> "final" [] OTHER -> p
 WordToName(w, table) == CHOOSE k \in DOMAIN table : table[k] = w
 
@@ -53,7 +54,7 @@ PartRx(p) ==
     [] p = "0V"              -> Alt(<<Cat(<<C(53), D(48,51)>>), Cat(<<D(49,52), Dg>>), Cat(<<C(48), D(49,57)>>)>>)
     [] p \in {"MAJOR","MINOR","PATCH","BUILD","NUM","INC0"} -> Rep(Dg,1,0)
     [] p \in {"BLD","INC1"}  -> Cat(<<D(49,57), Rep(Dg,0,0)>>)
-    [] p = "TAG"             -> Alt(<<Lit(TagWords.final), Lit(TagWords.dev), Lit(TagWords.alpha), Lit(TagWords.beta), Lit(TagWords.post), Lit(TagWords.rc)>>)
+    [] p = "TAG"             -> Alt(<<Lit(TagWords.preview), Lit(TagWords.final), Lit(TagWords.dev), Lit(TagWords.alpha), Lit(TagWords.beta), Lit(TagWords.post), Lit(TagWords.rc)>>)
     [] p = "PYTAG"           -> Alt(<<Lit(PyTagWords.dev), Lit(PyTagWords.post), Lit(PyTagWords.rc), Lit(PyTagWords.a), Lit(PyTagWords.b)>>)
 
 \* formatter of each part on a version state
